@@ -122,11 +122,12 @@ struct Layer {
     unsigned rfc4884_len;              // the length octet scaled to bytes
     bool ext_present, ext_ok; int ext_objects; size_t ext_off;
     bool fcs_present;
+    int nd_options, mld_records;
     int vlan_id; int mpls_label; bool mpls_bos;
     std::vector<Issue> issues;
     Layer() : proto(P_NONE), off(0), hlen(0), hlen_from_wire(false), claim_end(NPOS), claim_name(""), next(P_NONE), tag_names(P_NONE), tag(-1), payload_off(0), payload_end(0),
               opaque(false), self_delimiting(false), cksum_checked(0), cksum_bad(0), cksum_wire(0), no_next_header(false), rfc4884(false), orig_end(0),
-              rfc4884_len(0), ext_present(false), ext_ok(false), ext_objects(0), ext_off(0), fcs_present(false), vlan_id(-1), mpls_label(-1), mpls_bos(false) {}
+              rfc4884_len(0), ext_present(false), ext_ok(false), ext_objects(0), ext_off(0), fcs_present(false), nd_options(0), mld_records(-1), vlan_id(-1), mpls_label(-1), mpls_bos(false) {}
     void issue(const std::string& s, const std::string& d) { Issue i; i.sig = s; i.detail = d; issues.push_back(i); }
 };
 
@@ -485,6 +486,31 @@ inline Layer dissect_one(const uint8_t* b, size_t n, const State& s) {
         if (type == 1 || type == 3) { rfc4884(b, off, end, 8, 4, L); L.payload_end = L.orig_end; }
         if (type >= 1 && type <= 4) { if (L.payload_end - L.payload_off >= 40) L.next = P_IP6; cc.pad_ok = true; cc.ipver = 0; }
         else L.opaque = true;
+        // RFC 4861 neighbour discovery options: type, length in units of 8 octets (0 is invalid), laid end to end up to the end of the message
+        size_t nd = type == 133 ? 8 : type == 134 ? 16 : (type == 135 || type == 136) ? 24 : type == 137 ? 40 : 0;
+        if (nd && off + nd <= end) {
+            size_t pos = off + nd;
+            while (pos < end) {
+                if (end - pos < 2) { L.issue("icmpv6:nd-option-truncated", num(end - pos) + " byte left after the last option"); break; }
+                size_t ol = size_t(b[pos + 1]) * 8;
+                if (ol == 0) { L.issue("icmpv6:nd-option-length-zero", "option type " + num(b[pos]) + " with length 0"); break; }
+                if (pos + ol > end) { L.issue("icmpv6:nd-option-overrun", "option type " + num(b[pos]) + " of " + num(ol) + " bytes with " + num(end - pos) + " left"); break; }
+                pos += ol; L.nd_options++;
+            }
+        }
+        // RFC 3810 MLDv2 report: number of multicast address records, each 20 + 16 * sources + 4 * aux words
+        if (type == 143) {
+            unsigned nrec = be16(b + off + 6); size_t pos = off + 8; unsigned k = 0;
+            for (; k < nrec; ++k) {
+                if (end - pos < 20) break;
+                size_t rl = 20 + 16 * size_t(be16(b + pos + 2)) + 4 * size_t(b[pos + 1]);
+                if (pos + rl > end) break;
+                pos += rl;
+            }
+            L.mld_records = int(nrec);
+            if (k != nrec) L.issue("icmpv6:mld2-record-count", "header announces " + num(nrec) + " records, " + num(k) + " fit in the message");
+            else if (pos != end) L.issue("icmpv6:mld2-trailing-bytes", num(end - pos) + " bytes after the " + num(nrec) + " announced records");
+        }
         break;
     }
     default: L.hlen = 0; break;
